@@ -861,6 +861,32 @@ func (e *Env) evalCall(n *CCall) V {
 		case "int", "math":
 			v := e.eval(n.Args[0])
 			return mathV(x.toMathInt(v))
+		case "heapUnchanged":
+			// heapUnchanged(): every object that existed in the old state has the same
+			// contents now (maps, slices' backing arrays, structs, globals)
+			if e.cur.base != e.old.base {
+				return V{T: boolT, S: "false"}
+			}
+			var conj []string
+			var keys []string
+			for k := range e.cur.heap {
+				keys = append(keys, k)
+			}
+			sort.Strings(keys)
+			for _, k := range keys {
+				t := x.s.heapT[k]
+				o := x.heapGet(e.cur, k, t)
+				en := x.heapGet(e.old, k, t)
+				if o == en {
+					continue
+				}
+				if strings.HasPrefix(k, "G:") {
+					conj = append(conj, "(= "+o+" "+en+")")
+				} else {
+					conj = append(conj, fmt.Sprintf("(forall ((fr! Int)) (! (=> (and (>= fr! 0) (<= fr! %s)) (= (select %s fr!) (select %s fr!))) :pattern ((select %s fr!))))", e.old.alloc, o, en, o))
+				}
+			}
+			return V{T: boolT, S: and(conj...)}
 		case "mk":
 			// mk(T, f1, ..., fn): the struct value of type T with these field values (positional)
 			t, ok := e.tryType(n.Args[0])
